@@ -79,7 +79,8 @@ ImplHeaderTrim(c, sent, outcome, got) == c.loc = "header" /\ c.shape = "prim" /\
 
 (***************************** bodies: abstract ****************************)
 \* Body = {n: integer (required), s: string default "sd", on: nullable string, l: [integer],
-\*         dn: nullable string with `default: null`, required}
+\*         dn: nullable string with `default: null`, required,
+\*         u: integer of format unix-seconds (an instant at the resolution of a second)}
 BodyExpected(b) == [b EXCEPT !.m[2] = IF b.m[2] = Absent THEN Str(<<115, 100>>) ELSE b.m[2]]
 SameBody(a, b) == a.t = "obj" /\ b.t = "obj" /\ Len(a.m) = Len(b.m) /\ \A i \in 1..Len(a.m) : SameValue(a.m[i], b.m[i])
 BodyOK(sent, outcome, got, mwgot) ==
